@@ -31,7 +31,7 @@ CLAIMS = {
 
 NEGATIVE = ["nodirty_t", "nodirty_f", "nodirty_r", "nodirty_ca", "nodirty_acc", "nodirty_am", "nodirty_ma",
             "guard_filter_kind", "guard_filter_prefix", "guard_transform_class", "guard_transform_prefix",
-            "guard_transform_wrong_pair", "guard_dof_x_only", "guard_ao_wrong_pair", "gradient_no_refresh", "map_not_validated"]
+            "guard_transform_wrong_pair", "guard_dof_x_only", "guard_ao_wrong_pair", "dirty_am_presence_only", "gradient_no_refresh", "map_not_validated"]
 ORDER = ["t", "f", "r", "c", "sc", "cc", "am", "ao", "ca", "acc", "pal", "d", "dof", "ma"]
 TYPES = {"bits": 0, "indexed": 1, "gradient": 2, "solid": 3}
 ROLES = {"src": 0, "mask": 1, "dst": 2}
@@ -45,9 +45,16 @@ def mc(chk, tier):
         runs.append(("ImagePropMC_deep.cfg", False))
     runs += [("ImagePropMC_neg_%s.cfg" % b, True) for b in NEGATIVE]
     rejected = []
-    for cfg, neg in runs:
-        r = vf.tlc_mc(mod, cfg=os.path.join(base, cfg), workers=8 if not neg else 2, timeout=1500,
-                      expect_violation=neg)
+    from concurrent.futures import ThreadPoolExecutor
+
+    def one(job):
+        cfg, neg = job
+        return cfg, neg, vf.tlc_mc(mod, cfg=os.path.join(base, cfg), workers=8 if not neg else 1, timeout=1500,
+                                   expect_violation=neg, xmx="8g" if not neg else "1g", tag=cfg[:-4])
+
+    with ThreadPoolExecutor(max_workers=6) as ex:       # the negative configurations are tiny: run them side by side
+        results = list(ex.map(one, runs))
+    for cfg, neg, r in results:
         chk.add_tlc(r, ("negative config (must be rejected) " if neg else "model check ") + cfg)
         if neg:
             rejected.append("%s: %s" % (cfg, r.inv_violation.group(1) if r.inv_violation else "rejected"))
@@ -85,7 +92,7 @@ def to_script(beh, name, rng, wide_dst=False):
         fmt, op = rng.choice([2, 5]), 4
     out = ["reset %s" % name,
            "config %d %d %d %d %d %d %d %d" % (TYPES[c["type"]], ROLES[c["role"]], fmt, op,
-                                              rng.randrange(3), rng.randrange(128), rng.randrange(1, 1 << 20), c["r0"])]
+                                              rng.randrange(3), rng.randrange(512), rng.randrange(1, 1 << 20), c["r0"])]
     for s in beh[1:]:
         out.append("set %d %d %d %s" % (ORDER.index(s["j"]), s["v"], s["r"],
                                         " ".join(str(s["want"][k]) for k in ORDER)))
@@ -134,6 +141,15 @@ HANDWRITTEN = [
                                          ("am", 2, 1), ("acc", 0, 1), ("c", 0, 1), ("am", 0, 1)]),
     hand("bits", "dst", "2 4 0 16 18", [("d", 1, 1), ("dof", 1, 1), ("dof", 3, 1), ("dof", 2, 1), ("d", 2, 1), ("d", 0, 1),
                                           ("dof", 0, 1)]),
+    # alpha maps of different format classes exchanged without detaching (narrow <-> wide), with and without a rendering
+    hand("bits", "src", "1 0 0 0 26", [("am", 1, 1), ("am", 3, 1), ("am", 1, 1), ("am", 4, 1), ("am", 2, 1), ("am", 3, 0),
+                                         ("am", 2, 1), ("am", 3, 1), ("am", 0, 1), ("am", 3, 1), ("am", 4, 1)]),
+    hand("bits", "dst", "0 0 0 0 27", [("am", 3, 1), ("am", 1, 1), ("am", 3, 1), ("am", 2, 1), ("am", 3, 1), ("am", 0, 1)]),
+    hand("bits", "mask", "0 0 0 0 28", [("am", 4, 1), ("am", 3, 1), ("ca", 1, 1), ("am", 1, 1), ("am", 3, 1)]),
+    # matrices and filters of different classes
+    hand("bits", "src", "0 0 0 0 29", [("f", 1, 1), ("t", 19, 1), ("t", 2, 1), ("t", 20, 1), ("t", 21, 1), ("t", 9, 1),
+                                         ("t", 19, 1), ("t", 1, 1), ("f", 16, 1), ("f", 17, 1), ("f", 0, 1), ("f", 16, 1)]),
+    hand("bits", "src", "0 0 0 384 30", [("r", 1, 1), ("r", 0, 1), ("r", 2, 1), ("t", 19, 1), ("r", 0, 1)]),
     # coinciding values: the new y equals the old x, exchanged coordinates
     hand("bits", "dst", "0 0 0 0 24", [("am", 1, 1), ("ao", 1, 1), ("ao", 4, 1), ("ao", 3, 1), ("ao", 1, 1), ("ao", 8, 1),
                                          ("ao", 2, 1), ("ao", 6, 1), ("ao", 0, 1)]),
@@ -210,22 +226,31 @@ def run(prop, args):
     # in a configuration in which the property shows (PREF) and in other configurations
     foc, r = gen("bfs", 2, args.seed, tag="igenf", focus=True)
     chk.add_tlc(r, "behaviour generation (ImageGen Focus: every pair of values of every setter, rendering between)")
-    groups = {}
-    for b in foc:
-        groups.setdefault((b[-2]["j"], b[-2]["v"], b[-1]["v"]), []).append(b)      # (b[1:-2] is the prelude)
+    groups, unrendered = {}, {}
+    for b in foc:             # (b[1:-2] is the prelude; b[-2]["r"]: whether a rendering separates the two calls)
+        (groups if b[-2]["r"] == 1 else unrendered).setdefault((b[-2]["j"], b[-2]["v"], b[-1]["v"]), []).append(b)
     pairs = []
     for key in sorted(groups):
         cand = groups[key]
         pref = [b for b in cand if (b[0]["type"], b[0]["role"]) in PREF[key[0]]]
         rest = [b for b in cand if (b[0]["type"], b[0]["role"]) not in PREF[key[0]]]
         if quick:
-            pairs += rng.sample(pref, min(len(pref), 1 if key[0] in ("t", "f") else 2)) + rng.sample(rest, min(len(rest), 1))
+            pairs += rng.sample(pref, min(len(pref), 1))
+            if key[0] not in ("t", "f"):
+                pairs += rng.sample(pref, min(len(pref), 1)) + rng.sample(rest, min(len(rest), 1))
         else:
             pairs += cand
+    for key in sorted(unrendered):        # set(v1); set(v2); render -- for the setters that feed derived state
+        cand = unrendered[key]
+        pref = [b for b in cand if (b[0]["type"], b[0]["role"]) in PREF[key[0]]]
+        if not quick:
+            pairs += cand
+        elif key[0] in ("am", "r", "ca", "acc", "ma", "ao", "pal") or rng.random() < 0.25:
+            pairs += rng.sample(pref, min(len(pref), 1))
     chk.extra["setter_value_pairs"] = {"pairs": len(groups), "histories_replayed": len(pairs)}
     pairs3 = []
     if not quick:
-        pairs3, r = gen("generate", 3, args.seed + 1, n=1500, tag="igenf3", focus=True)
+        pairs3, r = gen("generate", 3, args.seed + 1, n=3000, tag="igenf3", focus=True)
         chk.add_tlc(r, "behaviour generation (ImageGen Focus, -generate depth 3)")
     other, r = gen("generate", 2, args.seed + 2, n=400 if quick else 4000, tag="igen2")
     chk.add_tlc(r, "behaviour generation (ImageGen, -generate depth 2)")
